@@ -1,69 +1,12 @@
-/- INTERIM model of template/url.go prefix validation (numeric and a few named character
-   references only). To be replaced by the C14 builder's Model/TmplUrl.lean (full html.UnescapeString). -/
+/- The URL-prefix validators the template model uses: the full model of template/url.go (Model/TmplUrl). -/
 import SafeHtml.Model.Tmpl.Sanitize
-import SafeHtml.Model.Url
-import SafeHtml.Model.UrlUtil
+import SafeHtml.Model.TmplUrl
 namespace SafeHtml.Model.Tmpl
-open SafeHtml SafeHtml.Generated.Regexes
+open SafeHtml
 
-def liteEntities : List (Bytes × Bytes) :=
-  [([97,109,112,59], [38]), ([108,116,59], [60]), ([103,116,59], [62]), ([113,117,111,116,59], [34]),
-   ([97,112,111,115,59], [39]), ([97,109,112], [38]), ([108,116], [60]), ([103,116], [62]), ([113,117,111,116], [34]),
-   ([99,111,108,111,110,59], [58]), ([84,97,98,59], [9]), ([78,101,119,76,105,110,101,59], [10]),
-   ([115,111,108,59], [47]), ([113,117,101,115,116,59], [63]), ([110,117,109,59], [35])]
-
-def parseDigits (base : Nat) : Bytes → Nat → Nat × Bytes × Nat
-  | [], acc => (acc, [], 0)
-  | c :: t, acc =>
-    let d : Option Nat :=
-      if isDigit c then some (c - 48)
-      else if base == 16 && 97 ≤ c && c ≤ 102 then some (c - 87)
-      else if base == 16 && 65 ≤ c && c ≤ 70 then some (c - 55)
-      else none
-    match d with
-    | some v => let (r, rest, n) := parseDigits base t (acc * base + v); (r, rest, n + 1)
-    | none => (acc, c :: t, 0)
-
-def unescapeLite : Nat → Bytes → Bytes
-  | 0, s => s
-  | _, [] => []
-  | f+1, 38 :: t =>
-    match t with
-    | 35 :: r =>
-      let (isHex, r') := match r with | 120 :: x => (true, x) | 88 :: x => (true, x) | _ => (false, r)
-      let (v, rest, n) := parseDigits (if isHex then 16 else 10) r' 0
-      if n == 0 then 38 :: unescapeLite f t
-      else
-        let rest := match rest with | 59 :: x => x | _ => rest
-        let v := if v == 0 || v > 0x10FFFF || (0xD800 ≤ v && v ≤ 0xDFFF) then 0xFFFD else v
-        Utf8.encodeRune v ++ unescapeLite f rest
-    | _ =>
-      match liteEntities.find? (fun e => e.1.isPrefixOf t) with
-      | some e => e.2 ++ unescapeLite f (t.drop e.1.length)
-      | none => 38 :: unescapeLite f t
-  | f+1, c :: t => c :: unescapeLite f t
-
-def decodeURLPrefix (p : Bytes) : Option Bytes :=
-  if Rx.matchString template_containsWhitespaceOrControlPattern p then none
-  else if Rx.matchString template_endsWithCharRefPrefixPattern p then none
-  else
-    let d := unescapeLite (p.length + 1) p
-    if Rx.matchString template_containsWhitespaceOrControlPattern d then none
-    else if Rx.matchString template_endsWithPercentEncodingPrefixPattern d then none
-    else some d
-
-def validateURLPrefix (p : Bytes) : Bool :=
-  match decodeURLPrefix p with
-  | none => false
-  | some d =>
-    if Rx.matchString template_startsWithFullySpecifiedSchemePattern d then urlSanitized d == d
-    else d.any fun b => b == 47 || b == 63 || b == 35
-
-def validateTrustedResourceURLPrefix (p : Bytes) : Bool :=
-  match decodeURLPrefix p with
-  | none => false
-  | some d => isSafeTrustedResourceURLPrefix d
-
-def liteValidators : Validators := { url := validateURLPrefix, tru := validateTrustedResourceURLPrefix }
+def liteValidators : Validators :=
+  { url := Model.TmplUrl.validateURLPrefix,
+    tru := Model.TmplUrl.validateTrustedResourceURLPrefix,
+    inQuery := Model.TmplUrl.inQueryOrFragment }
 
 end SafeHtml.Model.Tmpl
